@@ -470,6 +470,7 @@ def _panel_redefs():
     return {
         'offset': lambda p: setattr(p, 'offset', 0.3e-3),
         'angles': lambda p: setattr(p, 'stack', [t + 15. for t in p.stack]),
+        'angle_inplace': lambda p: p.stack.__setitem__(0, p.stack[0] + 15.),
         'a': lambda p: setattr(p, 'a', 2.6),
         'flag': lambda p: setattr(p, 'w1rx', 0.),
         'loads': lambda p: (setattr(p, 'Nxx', -3.0e3), setattr(p, 'Nxy', 0.9e3)),
